@@ -234,6 +234,28 @@ pub fn run_case(ctx: &mut Ctx, case: &Value, c09: bool) {
             judge(ctx, &ic, &format!("{}{}", prefix, k), Some(&policy_aud), kb_ok, accept, label, case);
         }
     }
+    // a `cnf` with two candidates: the bound key's own members (what the issuer bound) and a `jwk` member that
+    // holds ANOTHER key. The bound key is the one the token is bound to: a KB-JWT of the holder verifies, one
+    // signed with the other key does not.
+    {
+        let mut payload2 = ic.payload.clone();
+        let mut cnf2 = keys::holder_jwk();
+        cnf2["jwk"] = serde_json::from_str(keys::RSA_A_JWK).unwrap_or(Value::Null);
+        payload2["cnf"] = cnf2;
+        let mut header = Header::new(ic.alg.clone());
+        header.typ = Some("sd-jwt".to_string());
+        if let Out::Ok(jwt2) = real::sign(&header, &payload2, &keys::enc_key(keys::family(&ic.alg), 0)) {
+            let prefix2 = format!("{}~{}{}", jwt2, pdiscs.join("~"), if pdiscs.is_empty() { "" } else { "~" });
+            let mut claims2 = good.clone();
+            claims2["sd_hash"] = json!(ctx.driver.hash(&ic.sd_alg, &prefix2));
+            if let Some(k) = craft_kb(Some("kb+jwt"), kb_alg.clone(), &claims2, 1) {
+                judge(ctx, &ic, &format!("{}{}", prefix2, k), Some(&policy_aud), true, true, "cnf-with-second-candidate:bound-key", case);
+            }
+            if let Some(k) = craft_kb(Some("kb+jwt"), kb_alg.clone(), &claims2, 0) {
+                judge(ctx, &ic, &format!("{}{}", prefix2, k), Some(&policy_aud), false, false, "cnf-with-second-candidate:other-key", case);
+            }
+        }
+    }
     // with a policy that configures no audience, a KB-JWT for any audience is acceptable
     if let Some(k) = craft_kb(Some("kb+jwt"), kb_alg.clone(), &with("aud", json!("https://other.example")), 1) {
         judge(ctx, &ic, &format!("{}{}", prefix, k), Some(&policy_noaud), true, true, "crafted:aud-other:policy-no-aud", case);
